@@ -12,6 +12,7 @@ import (
 
 	"github.com/saucelabs/forwarder/proxyproto"
 	"github.com/saucelabs/forwarder/verifharness/lib"
+	"github.com/saucelabs/forwarder/verifharness/wiring"
 )
 
 const headerTimeout = 1500 * time.Millisecond
@@ -452,6 +453,7 @@ func main() {
 	run.Floor("local_checked", int64(n/40))
 	run.Floor("stalls_checked", 6)
 	run.Floor("fullproxy_requests_checked", 10)
+	wiring.Run(run, "C08")
 	run.Finish()
 }
 
